@@ -170,6 +170,67 @@ def _install_crosshair(reals_only: bool = True):
 
         B._PYTYPE_TO_WRAPPER_TYPE[float] = ((B.RealBasedSymbolicFloat, 1.0),)
     _patch_float_to_int()
+    _patch_property_builtins()
+
+
+def _patch_property_builtins():
+    """hasattr()/getattr()/setattr() are C builtins: a *property* reached through them runs with the tracer off,
+    and symbolic arithmetic inside it aborts ("Numeric operation on symbolic while not tracing").  Properties are
+    looked up statically and their fget/fset called as ordinary (traced) Python calls; everything else goes to the
+    original builtin."""
+    import inspect
+
+    import crosshair.core as C
+    from crosshair.tracers import NoTracing
+
+    if getattr(C, "_verif_propb", False):
+        return
+    C._verif_propb = True
+    reg = C._PATCH_REGISTRATIONS
+    _missing = object()
+
+    def _static_prop(o, name):
+        with NoTracing():
+            if not isinstance(name, str) or type(o).__module__.startswith("crosshair"):
+                return None
+            try:
+                attr = inspect.getattr_static(type(o), name, _missing)
+            except Exception:
+                return None
+            return attr if isinstance(attr, property) else None
+
+    o_has, o_get, o_set = reg.get(hasattr), reg.get(getattr), reg.get(setattr)
+
+    def _hasattr(o, name):
+        prop = _static_prop(o, name)
+        if prop is not None and prop.fget is not None:
+            try:
+                prop.fget(o)
+                return True
+            except AttributeError:
+                return False
+        return o_has(o, name) if o_has else hasattr(o, name)
+
+    def _getattr(o, name, *default):
+        prop = _static_prop(o, name)
+        if prop is not None and prop.fget is not None:
+            if default:
+                try:
+                    return prop.fget(o)
+                except AttributeError:
+                    return default[0]
+            return prop.fget(o)
+        return o_get(o, name, *default) if o_get else getattr(o, name, *default)
+
+    def _setattr(o, name, value):
+        prop = _static_prop(o, name)
+        if prop is not None and prop.fset is not None:
+            return prop.fset(o, value)
+        return o_set(o, name, value) if o_set else setattr(o, name, value)
+
+    reg[hasattr] = _hasattr
+    reg[getattr] = _getattr
+    reg[setattr] = _setattr
 
 
 def _patch_float_to_int():
@@ -195,6 +256,8 @@ def _patch_float_to_int():
                 val = val.reshape(-1)[0]  # int(0-d object array): unwrap so that the proxy stays symbolic
             if isinstance(val, B.SymbolicInt) and not a and not k:
                 return val
+            if isinstance(val, LazyNum) and not a and not k:
+                return val.n
             sym_float = isinstance(val, B.RealBasedSymbolicFloat) and not a and not k
             plain = not sym_float and not any(
                 type(v).__module__.startswith("crosshair") for v in (val,) + a + tuple(k.values()))
@@ -274,6 +337,50 @@ def _model_values(space, bound_args):
     return out
 
 
+class LazyNum:
+    """Result of "{}".format(n) / "{:d}".format(n) for a symbolic int n under the lazy_format option: remembers the
+    number instead of building its decimal string (building it forks once per possible digit count).  int() gives
+    the number back; any string use materialises CrossHair's lazy decimal string."""
+
+    def __init__(self, n):
+        self.n = n
+
+    def _s(self):
+        return self.n.__str__()
+
+    def __str__(self):
+        return self._s()
+
+    def __repr__(self):
+        return "LazyNum(%r)" % (self.n,)
+
+    def __int__(self):
+        return self.n
+
+    def __eq__(self, other):
+        if isinstance(other, LazyNum):
+            return self.n == other.n
+        return self._s() == other
+
+    def __ne__(self, other):
+        return not self.__eq__(other)
+
+    def __hash__(self):
+        return hash(self._s())
+
+    def __add__(self, other):
+        return self._s() + other
+
+    def __radd__(self, other):
+        return other + self._s()
+
+    def __len__(self):
+        return len(self._s())
+
+    def __getattr__(self, name):  # strip(), upper(), ...
+        return getattr(self._s(), name)
+
+
 def _patch_lazy_format():
     """format(n) / "{}".format(n) / f"{n}" of a symbolic int: CrossHair realises the number; return its lazy symbolic
     decimal string instead (str(n) is already modelled that way).  Opt-in per harness: useful when the code under
@@ -302,6 +409,16 @@ def _patch_lazy_format():
         return orig(value, spec) if orig else format(value, spec)
 
     reg[format] = _format
+    orig_sf = reg.get(str.format)
+
+    def _str_format(self, *a, **k):
+        with NoTracing():
+            single = type(self) is str and self in ("{}", "{:d}") and len(a) == 1 and not k and isinstance(a[0], B.SymbolicInt)
+        if single:
+            return LazyNum(a[0])
+        return orig_sf(self, *a, **k) if orig_sf else str.format(self, *a, **k)
+
+    reg[str.format] = _str_format
 
 
 def explore(fn, budget_s: float, per_path_timeout: float = 30.0, seed: int = 0,
